@@ -100,6 +100,16 @@ Fixpoint c03_assign (exp : list item) (ss es als cs : list str) (nerr : nat) : b
     (match x, c03_pop nm cs with IConst _ _ _ _, Some cs' => c03_assign r ss es als cs' nerr | _, _ => false end)
   end.
 
+(* the kinds of IR item a source item may become: a struct or enum may become an alias (tuple struct,
+   typeshare(serialized_as)); nothing else changes kind *)
+Definition c03_leaf_kind_ok (x : item) (it : ritem) : Prop :=
+  match x, it with
+  | IStruct _ _ _ _, ItStruct _ | IStruct _ _ _ _, ItAlias _
+  | IEnum _ _ _ _, ItEnum _ | IEnum _ _ _ _, ItAlias _
+  | IType _ _ _ _, ItAlias _ | IConst _ _ _ _, ItConst _ => True
+  | _, _ => False
+  end.
+
 Definition c03_leaf_ok (x : item) : bool := cfg_parsable (leaf_attrs x) && c03_ident_ok (leaf_ident x).
 Definition c03_field_ok (f : field) : bool :=
   cfg_parsable (f_attrs f) && match f_ident f with Some i => c03_ident_ok i | None => true end.
